@@ -213,6 +213,7 @@ PARTIALS = {
     "pfor": "{% for x in ys %}{{ x }}{% endfor %}{{ x }}",
     "pif": "{% if f %}{{ x }}{% else %}{{ y | downcase }}{% endif %}",
     "item": "{{ item }}{{ x }}",
+    "y.html": "[{{ y }}]",
     "pcap": "{% capture y %}{{ x }}{% endcapture %}{{ y }}",
     "base": "{{ t }}{% block b %}{{ u }}{% endblock %}<{% block c %}{{ x }}{% endblock %}>",
     "mid": "{% extends 'base' %}{% block b %}{{ y | upcase }}{{ block.super }}{% endblock %}",
@@ -289,6 +290,9 @@ SKEL = {
     #  d_render_*  render_tag.py:316: Partial.key hashes only the keyword-argument names, not the name bound by with/for..as
     #  d_snippet_* render_tag.py:315-316 + static_analysis.py:207: all inline snippets share partial name "" (same key =>
     #              second snippet never visited; other key => visited "globals only", its variables/filters/tags are lost)
+    "inc_named_like_var": ("{% include 'y.html' %}{{ x }}", True),
+    "inc_named_like_var_mixed": ("{% include 'y.html' with x %}{% include 'y.html' %}{% for y in xs %}{% include 'y.html' %}{% endfor %}", True),
+    "render_named_like_var": ("{% render 'y.html' %}{% render 'y.html' with x %}{% render 'y.html', y: c %}", True),
     "d_inc_for_then_top": ("{% for x in xs %}{% include 'px' %}{% endfor %}{% include 'px' %}", True),
     "d_inc_branchy": ("{% if f %}{% for x in xs %}{% include 'pxy' %}{% endfor %}{% endif %}{{ y }}{% if g %}{% include 'pxy' %}{% endif %}", False),
     "d_inc_two_loops": ("{% for y in ys %}{% include 'pxy' %}{% endfor %}{% for x in xs %}{% include 'pxy' %}{% endfor %}", False),
